@@ -192,6 +192,20 @@ def body_cov(case, ctx):
               f"{name}.repeated-use", f"{rule}({n}) through {desc}: the grid returned by the first call changed after later calls")
     ctx.check(np.array_equal(np.asarray(grid.points, dtype=float), x) and np.array_equal(np.asarray(grid.weights, dtype=float), w),
               f"{name}.source-grid-modified", f"{rule}({n}) through {desc}: transform_1d_grid changed the source grid")
+    # ... and a function of the grid's CURRENT contents: after the caller gave the SAME source-grid object other
+    # weights (setter), the next call answers for the new weights
+    if again:
+        # (earlier results are NOT edited in place here: IdentityRTransform.transform returns its argument, so the
+        # grid it produces shares its points array with the source grid - an aliasing the properties do not forbid)
+        grid.weights = (w * 2.0).copy()
+        try:
+            g3 = tf.transform_1d_grid(grid)
+            ok3 = np.array_equal(np.asarray(g3.points), P, equal_nan=True) and np.array_equal(np.asarray(g3.weights), 2.0 * W, equal_nan=True)
+            ctx.check(ok3, f"{name}.repeated-use", f"{rule}({n}) through {desc}: after the source grid's weights were doubled through the setter, "
+                      "transform_1d_grid of the same grid object does not return the same nodes with doubled weights")
+        except Exception as exc:  # noqa: BLE001
+            ctx.fail(f"{name}.repeated-use", f"{rule}({n}) through {desc}: transform_1d_grid after a weights reassignment raised {type(exc).__name__}: {exc}")
+        grid.weights = w.copy()
     if P.shape != x.shape or W.shape != x.shape:
         ctx.fail(f"{name}.shape", f"{rule}({n}) through {desc}: points {P.shape}, weights {W.shape}, expected {x.shape}")
         return
